@@ -190,6 +190,34 @@ class Group:
             log.append({"rule": "R1-closure-underscore", "from": mm.group(0)})
             return "|" + ", ".join(out) + "|"
         text = re.sub(r"\|((?:\s*\w+\s*,)*\s*_\s*(?:,\s*\w+\s*)*)\|", r1, text)
+        # rule R1b: a closure whose single parameter is a tuple pattern `|(a, _)| body` becomes
+        # `|vx_pN| { let (a, _) = vx_pN; body }` (Verus: "only variables are supported here, not general patterns")
+        while True:
+            m = mask(text)
+            mm = re.search(r"\|\((\s*(?:&?\s*(?:mut\s+)?\w+|_)\s*(?:,\s*(?:&?\s*(?:mut\s+)?\w+|_)\s*)+)\)\|", m)
+            if not mm:
+                break
+            self._r1 = getattr(self, "_r1", 0)
+            name = "vx_p%d" % self._r1
+            self._r1 += 1
+            pat = text[mm.start() + 1:mm.end() - 1]
+            k = mm.end()
+            while m[k] in " \n\t":
+                k += 1
+            if m[k] == "{":
+                text = text[:mm.start()] + "|" + name + "|" + text[mm.end():k + 1] + " let " + pat + " = " + name + ";" + text[k + 1:]
+            else:
+                # expression body: up to the first `,` or unmatched closer at depth 0
+                j, depth = k, 0
+                while j < len(m):
+                    c = m[j]
+                    if c in "([{":
+                        j = match_close(m, j)
+                    elif c in ")]}" or (c == "," and depth == 0) or c == ";":
+                        break
+                    j += 1
+                text = text[:mm.start()] + "|" + name + "| { let " + pat + " = " + name + "; " + text[k:j] + " }" + text[j:]
+            log.append({"rule": "R1b-closure-tuple-pattern", "from": mm.group(0)})
         # rule R16: byte-string literals b"..." become generated constant functions whose contract states their
         # bytes (Verus does not know the contents of byte-string literals); the bytes are read from the source text
         while True:
